@@ -41,7 +41,7 @@ class HShape(fm.TimeComponent):
         self.create_connector(
             pull_data=["In"] if k["hasin"] and k["pull"] else [],
             in_info_rules={"In": [FromOutput("Out")]} if k["hasin"] and not k["inown"] else None,
-            out_info_rules={"Out": [FromInput("In")]} if k["hasout"] and not k["outown"] else None)
+            out_info_rules={"Out": [FromInput("In")]} if k["hasout"] and not k["outown"] and not k.get("oprov") else None)
 
     def _cond(self):
         k, con = self.k, self.connector
@@ -55,7 +55,8 @@ class HShape(fm.TimeComponent):
         push = {}
         if self.k["hasout"] and not self.connector.data_pushed["Out"] and self._cond():
             push = {"Out": float(1000 * self.idx + self.k["off"])}
-        self.try_connect(start_time, push_data=push)
+        infos = {"Out": self._info()} if self.k["hasout"] and self.k.get("oprov") else None
+        self.try_connect(start_time, push_infos=infos, push_data=push)
 
     def _validate(self):
         pass
